@@ -154,7 +154,9 @@ contract(M + "ScenarioOutline.scenarios", props=["C06"], params={"self": "ref:Sc
 prop("C06", level="other", bounded=[],
      explanation="proved (structure): a row scenario is a new Scenario whose parent is the outline, with one new copy per outline "
                  "step in order, tags = the outline's tags rendered with this row and the builder's parameters (tags keeping an "
-                 "unknown placeholder dropped) followed by the examples block's tags; the template keeps its steps and tags; the "
+                 "unknown placeholder dropped) followed by the examples block's tags; the template keeps its steps and tags; "
+                 "make_step_for_row edits only the new deep copy (frame: no list that existed before -- the outline step's table "
+                 "headings, rows, cells -- changes), so rows cannot influence each other or the template; the "
                  "row scenarios are rebuilt exactly when some Examples table is marked modified, cached otherwise, and no table is "
                  "left marked. Bounded: the substitution itself (render_template, step tables, names), build_scenarios' double loop, "
                  "row ids, Table API histories",
@@ -162,3 +164,39 @@ prop("C06", level="other", bounded=[],
                "bounded run-time contract stand-in for the string substitution",
      notes=["render_template / Tag.make_name / make_step_for_row / make_scenario_name are uninterpreted functions of their arguments",
             "Scenario(...) constructor stores its arguments (trusted contract new:Scenario)"])
+
+# -- rows never influence each other or the template: the step of a row is a deep copy --------------------------------
+shape("Step", table="opt:ref:Table", text="any", name="any")
+shape("Table", headings="seq:str", rows="seq:ref:Row")
+shape("Row", cells="seq:str", headings="any")
+contract("lib:copy.deepcopy", trusted=True, pos_params=["x"], fresh_result="Step",
+         ensures={"shares-nothing-mutable-with-the-original":
+                  "copy_of(result) is x and result.name == as_ref(x, 'Step').name and "
+                  "(is_none(result.table) == is_none(as_ref(x, 'Step').table)) and "
+                  "implies(not is_none(result.table), is_fresh(result.table) and is_fresh(as_ref(result.table, 'Table').headings) and "
+                  "is_fresh(as_ref(result.table, 'Table').rows) and "
+                  "forall(lambda k: implies(0 <= k < len(as_ref(result.table, 'Table').rows), "
+                  "is_fresh(as_ref(result.table, 'Table').rows[k]) and is_fresh(as_ref(result.table, 'Table').rows[k].cells))))"},
+         doc="copy.deepcopy(step): a new Step whose table, heading list, rows and cell lists are new objects (A-lib)")
+contract("abs:Row.items", trusted=True, params={"self": "ref:Row"}, pos_params=["self"], pure=True, result="seq:tuple:str",
+         ensures={"pairs": "forall(lambda k: implies(0 <= k < len(result), len(as_tuple(result[k], 'str')) == 2))"},
+         doc="row.items(): (heading, cell) pairs of an Examples row")
+contract("abs:Table.__iter__", trusted=True, params={"self": "ref:Table"}, pos_params=["self"], pure=True, result="seq:ref:Row",
+         ensures={"the-rows": "result is self.rows"}, doc="iter(table) == iter(table.rows)")
+_T = "as_ref(new_step.table, 'Table')"
+_INV = {"only-the-copy-is-edited": "old_lists_unchanged()",
+        "the-copy-keeps-its-own-new-lists":
+            "not is_none(new_step.table) and is_fresh(new_step.table) and is_fresh(%(t)s.headings) and is_fresh(%(t)s.rows) and "
+            "forall(lambda k: implies(0 <= k < len(%(t)s.rows), is_fresh(%(t)s.rows[k]) and is_fresh(%(t)s.rows[k].cells)))" % {"t": _T}}
+contract(M + "ScenarioOutlineBuilder.make_step_for_row", props=["C06"],
+         params={"outline_step": "ref:Step", "row": "ref:Row", "params": "any"},
+         callsites={"cls.render_template": "abs:render_template"},
+         modifies=[],
+         loops=[Loop(invariant=_INV, modifies=["lists"]),
+                Loop(invariant=dict(_INV, **{"heading-count-kept": "_n == len(%s.headings)" % _T}), modifies=["lists"]),
+                Loop(invariant=_INV, modifies=["lists"]),
+                Loop(invariant=dict(_INV, **{"cell-count-kept": "_n == len(step_row.cells)"}), modifies=["lists"])],
+         ensures={"a-new-step-copied-from-the-outline-step": "is_fresh(result) and copy_of(result) is outline_step",
+                  "its-name-is-the-outline-step's-name-rendered-for-this-row": "result.name == rendered(old(outline_step.name), row, params)"},
+         doc="`modifies=[]`: nothing that existed before the call changes -- the outline step, its table, rows and cells "
+             "(frame obligations); only the new copy is edited")
